@@ -406,6 +406,18 @@ def node_notifications(ctx):
         if not observer:
             for n, b in field_unchanged(old, so, ['readonlyNodes', 'raftMatchIndex', 'raftNextIndex']):
                 ctx.prove(b, 'C18:O18.3.member-notification-touches-only-connected.%s' % n)
+        c0, c1 = old.get('connectedNodes').bits, so.cell('connectedNodes').bits
+        if k in (0, 2):
+            ctx.prove(And(*[Iff(c1[i], Or(c0[i], idx == i)) for i in range(so.U)]), 'C18+C09:O18.3.connect-adds-exactly-that-node')
+        else:
+            ctx.prove(And(*[Iff(c1[i], And(c0[i], idx != i)) for i in range(so.U)]), 'C18+C09:O18.3.disconnect-removes-exactly-that-node')
+        canc = ctx.glist('cancelled')
+        if k == 3:
+            # O9.7 (I10): a member whose connection is gone has no snapshot transfer state left on this node, so a transfer interrupted
+            # by a disconnect restarts with its first chunk however quickly the connection comes back (chunks in flight are lost)
+            ctx.prove(len(canc) == 1 and isinstance(canc[0], NodeV) and Eq(canc[0].idx, idx), 'C09:O9.7.disconnect-cancels-transfer')
+        else:
+            ctx.prove(len(canc) == 0 or all(isinstance(x, NodeV) and x.idx is idx for x in canc), 'C09:O9.7.only-own-transfer-cancelled')
         so.prove_inv('*:node-notifications')
         return
     raise_ = None
